@@ -5,6 +5,7 @@ Streams over whole statements:
   parse.stmt  s:<text> p:<params> l:<lower> [flag]   ParseStatement  -> ok <sexp> | err s:<msg> | panic …
   parse.query s:<text> p:<params> l:<lower> [flag]   ParseQuery      -> ok (query <sexp>…) | err …
   print.stmt  s:<text> p:<params> l:<lower> [flag]   String() of the parsed statement -> ok s:<text> | err …
+  total.stmt / total.query                            the same two on hostile inputs (C04)
 A trailing free-form argument (the generator's validity flag) is ignored by the model.
 -/
 namespace Oracle.Handlers.Stmt
@@ -25,6 +26,15 @@ def run (stream : String) (a p l : String) : Option String :=
     match parseQueryText text params tbl with
     | .ok ss => "ok " ++ sexpStatements ss
     | .error f => showFail f
+  -- the same two entry points on hostile inputs (C04)
+  | "total.stmt" => withArgs a p l fun text params tbl =>
+    match parseStatementText text params tbl with
+    | .ok s => "ok " ++ sexpStatement s
+    | .error f => showFail f
+  | "total.query" => withArgs a p l fun text params tbl =>
+    match parseQueryText text params tbl with
+    | .ok ss => "ok " ++ sexpStatements ss
+    | .error f => showFail f
   | "print.stmt" => withArgs a p l fun text params tbl =>
     match parseStatementText text params tbl with
     | .ok s => "ok " ++ encStr s.print
@@ -35,6 +45,6 @@ def handle (stream : String) (args : List String) : Option String :=
   match args with
   | [a, p, l] => run stream a p l
   | [a, p, l, _] => run stream a p l
-  | _ => if stream = "parse.stmt" ∨ stream = "parse.query" ∨ stream = "print.stmt" then some "bad-arg" else none
+  | _ => if stream = "parse.stmt" ∨ stream = "parse.query" ∨ stream = "print.stmt" ∨ stream = "total.stmt" ∨ stream = "total.query" then some "bad-arg" else none
 
 end Oracle.Handlers.Stmt
